@@ -243,16 +243,18 @@ func short(first int) {
 		judgeMidi(nil)
 		judgeSMF(nil)
 	}
-	judgeMidi(b[:1])
-	judgeSMF(b[:1])
+	// (three-index slices: no spare capacity behind the message, so that a
+	// slice expression reaching past its end fails as it would on a literal)
+	judgeMidi(b[:1:1])
+	judgeSMF(b[:1:1])
 	for x := 0; x < 256; x++ {
 		b[1] = byte(x)
-		judgeMidi(b[:2])
-		judgeSMF(b[:2])
+		judgeMidi(b[:2:2])
+		judgeSMF(b[:2:2])
 		for y := 0; y < 256; y++ {
 			b[2] = byte(y)
-			judgeMidi(b[:3])
-			judgeSMF(b[:3])
+			judgeMidi(b[:3:3])
+			judgeSMF(b[:3:3])
 		}
 	}
 	ctx.NontrivialN(int64(derived))
@@ -271,8 +273,8 @@ func long(first int) {
 				ctx.Add("skipped_declared_length_above_2^21", 1)
 				return
 			}
-			judgeMidi(b[:l])
-			judgeSMF(b[:l])
+			judgeMidi(b[:l:l])
+			judgeSMF(b[:l:l])
 			return
 		}
 		for _, x := range alpha12 {
@@ -284,6 +286,101 @@ func long(first int) {
 		rec(1, l)
 	}
 	ctx.NontrivialN(int64(derived))
+}
+
+// sysexAlpha: identifiers that mean something in universal and manufacturer
+// sysex (non-realtime / realtime universal, broadcast, sub-ids of the common
+// messages, Roland, its GS model, Yamaha, its XG model, device 0x10, DT1).
+var sysexAlpha = []byte{0x00, 0x01, 0x02, 0x04, 0x06, 0x09, 0x7E, 0x7F, 0x41, 0x42, 0x43, 0x4C, 0x10, 0x12}
+
+// sysexSpace: every F0 <body> F7 and F0 <body> with bodies of 0..5 (thorough
+// 0..6) bytes over sysexAlpha, without spare capacity; plus the sysex messages
+// everybody sends (GM/GS/XG resets, master volume, identity request and reply,
+// MTC full frame, MMC stop/locate, sample dump header), each cut and extended
+// by up to three bytes.
+func sysexSpace(part, parts int) {
+	maxBody := ctx.Pick(5, 6)
+	k := 0
+	for l := 0; l <= maxBody; l++ {
+		idx := make([]int, l)
+		for {
+			k++
+			if k%parts == part {
+				b := make([]byte, 0, l+2)
+				b = append(b, 0xF0)
+				for _, i := range idx {
+					b = append(b, sysexAlpha[i])
+				}
+				judgeMidi(b[:l+1 : l+1])
+				judgeSMF(b[:l+1 : l+1])
+				b = append(b, 0xF7)
+				judgeMidi(b)
+				judgeSMF(b)
+				ctx.Add("sysex_strings", 2)
+			}
+			i := l - 1
+			for i >= 0 {
+				idx[i]++
+				if idx[i] < len(sysexAlpha) {
+					break
+				}
+				idx[i] = 0
+				i--
+			}
+			if i < 0 {
+				break
+			}
+		}
+	}
+	if part != 0 {
+		return
+	}
+	known := []string{
+		"F0 7E 7F 09 01 F7", "F0 7E 7F 09 02 F7", "F0 7E 7F 09 03 F7",
+		"F0 41 10 42 12 40 00 7F 00 41 F7", "F0 41 10 42 12 00 00 7F 00 01 F7",
+		"F0 43 10 4C 00 00 7E 00 F7", "F0 43 10 4C 08 00 07 7F F7",
+		"F0 7F 7F 04 01 00 7F F7", "F0 7F 7F 04 02 00 40 F7",
+		"F0 7E 7F 06 01 F7", "F0 7E 00 06 02 41 2B 02 00 00 00 01 00 00 F7", "F0 7E 10 06 02 00 20 29 02 00 00 00 01 00 00 F7",
+		"F0 7F 7F 01 01 01 02 03 04 F7", "F0 7F 00 01 01 61 3B 3B 1D F7", "F0 7F 7F 01 02 00 00 00 00 00 F7",
+		"F0 7F 7F 06 01 F7", "F0 7F 7F 06 02 F7", "F0 7F 7F 06 44 06 01 21 00 00 00 00 F7", "F0 7F 10 07 01 02 F7",
+		"F0 7E 00 01 00 00 0E 10 27 00 00 00 00 00 00 00 00 00 00 7F F7",
+		"F0 7E 7F 7C 00 F7", "F0 7E 7F 7F 00 F7", "F0 7F 7F 03 02 04 04 18 08 F7", "F0 7F 7F 08 02 00 01 3C 3C 00 00 F7",
+		"F0 00 20 29 02 0C 0E 01 F7", "F0 00 00 0E 00 41 F7", "F0 47 7F 15 60 00 04 41 09 00 05 F7",
+	}
+	for _, h := range known {
+		full := engine.UnHex(h)
+		for cut := 0; cut <= 3 && cut < len(full)-1; cut++ {
+			body := full[: len(full)-1-cut : len(full)-1-cut]
+			v := make([]byte, len(body)+1)
+			copy(v, body)
+			v[len(body)] = 0xF7
+			for _, m := range [][]byte{v, body} {
+				judgeMidi(m[:len(m):len(m)])
+				judgeSMF(m[:len(m):len(m)])
+			}
+		}
+		for ext := 1; ext <= 3; ext++ {
+			v := make([]byte, 0, len(full)+ext)
+			v = append(v, full[:len(full)-1]...)
+			for i := 0; i < ext; i++ {
+				v = append(v, byte(i))
+			}
+			v = append(v, 0xF7)
+			judgeMidi(v)
+			judgeSMF(v)
+		}
+		// every single byte of the message replaced by each of a few values
+		for p := 1; p < len(full)-1; p++ {
+			for _, x := range []byte{0x00, 0x01, 0x7F, 0x41, 0x43} {
+				v := make([]byte, len(full))
+				copy(v, full)
+				v[p] = x
+				judgeMidi(v)
+				judgeSMF(v)
+			}
+		}
+		ctx.Add("known_sysex", 1)
+	}
 }
 
 func metaShapes(part int) {
@@ -464,6 +561,7 @@ func main() {
 	})
 	ctx.Jobs("short", 256, func(j int) { short(j) })
 	ctx.Jobs("long", len(alpha12), func(j int) { long(j) })
+	ctx.Jobs("sysex", 16, func(j int) { sysexSpace(j, 16) })
 	ctx.Jobs("meta-shapes", 16, func(j int) { metaShapes(j) })
 	ctx.Jobs("meta-values", 16, func(j int) { metaValues(j, 16) })
 	ctx.Jobs("constructed", 1, func(int) { constructed() })
